@@ -294,7 +294,7 @@ impl Monitor for C08 {
         "cwv-direct"
     }
     fn histories(&self, tier: Tier) -> u64 {
-        tier.pick(500, 240_000)
+        tier.pick(2_500, 240_000)
     }
     fn mandatory(&self) -> Vec<&'static str> {
         vec![
